@@ -201,8 +201,33 @@ def _termination(run, prog):
     n = 0
     # every function of the codec module (decoders and whatever helpers / generators they delegate to) and the receive
     # functions of the endpoints
+    # the decoders and whatever they (transitively) call inside the codec module - by name, an over-approximation of the call
+    # graph - plus the receive functions of the endpoints.  Loops that only the encoders reach (the option search) are the
+    # subject of C02-X2.
+    hdr_fns = [fi for fi in prog.functions.values() if fi.module.short == "header"]
+    by_name = {}
+    for fi in hdr_fns:
+        by_name.setdefault(fi.name, []).append(fi)
+    roots = [fi for fi in hdr_fns if fi.name in ("parse", "parse_option", "read", "at_eof", "_unpack")]
+    reach, todo = {fi.qual for fi in roots}, list(roots)
+    while todo:
+        cur = todo.pop()
+        for n_ in ast.walk(cur.node):
+            if isinstance(n_, ast.Call):
+                nm = n_.func.id if isinstance(n_.func, ast.Name) else n_.func.attr if isinstance(n_.func, ast.Attribute) else None
+                for g in by_name.get(nm, []) if nm and nm not in ("build", "build_option", "__str__") else []:
+                    if g.qual not in reach:
+                        reach.add(g.qual)
+                        todo.append(g)
+            elif isinstance(n_, (ast.Name, ast.Attribute)):
+                # a function handed over as a value (X.parse passed to a loop helper)
+                nm = n_.id if isinstance(n_, ast.Name) else n_.attr
+                for g in by_name.get(nm, []) if nm in ("parse", "parse_option", "_unpack") else []:
+                    if g.qual not in reach:
+                        reach.add(g.qual)
+                        todo.append(g)
     targets = [fi for fi in prog.functions.values()
-               if (fi.module.short == "header" and fi.name not in ("build", "build_option", "__str__", "_find"))
+               if fi.qual in reach
                or fi.qual in (f"{BASE}.datagram_received", f"{PROTO}.message_received", f"{PROTO}.sd_message_received", f"{SVC}.message_received")]
     for fi in targets:
         for node in ast.walk(fi.node):
